@@ -413,7 +413,10 @@ class Runner:
         self.rep = rep
         self.wopts = wopts
         self.workdir = workdir
-        self.groups = {}        # (term, text, outcome) -> [first detail, count]
+        self.groups = {}        # (minimal term, text, outcome) -> [first detail, [(leg, table)]]
+        self.records = []       # failing round trips (plan, leg, item index, text, outcome)
+        self.failing = {}       # shrinking phase: (plan uid, leg) -> {subterm key: (text, outcome)}
+        self.shrinking = False
         self.roundtrips = 0
 
     def run(self, plans, workers):
@@ -524,6 +527,8 @@ class Runner:
                 self.judge(p, leg, i, "crash", None, json.dumps(ent)[:200])
 
     def account(self, p, leg, ids):
+        if self.shrinking:
+            return
         rep = self.rep
         spec = p.table.spec
         for i in ids:
@@ -532,7 +537,6 @@ class Runner:
         self.roundtrips += len(ids)
 
     def judge(self, p, leg, i, kind, txt, payload):
-        it = p.items[i]
         if kind == "diff":
             outcome = "read back as %s" % payload
         elif kind == "rerr":
@@ -542,12 +546,55 @@ class Runner:
         else:
             outcome = "%s %s" % (kind, payload)
         outcome = re.sub(r"_[0-9]+", "_", outcome)
-        g = (it.show, txt, outcome)
-        if g in self.groups:
-            self.groups[g][1].append((leg, p.table.name))
-            return
-        self.groups[g] = [{"hist": p.table.hist, "leg": leg, "term": it.t, "nv": it.nv, "text": txt, "outcome": outcome,
-                           "class": [it.pos, it.oc, list(it.o), list(it.inn)]}, [(leg, p.table.name)]]
+        if self.shrinking:
+            self.failing.setdefault((p.uid, leg), {})[p.items[i].key] = (txt, outcome)
+        else:
+            self.records.append((p, leg, i, txt, outcome))
+
+    def shrink(self, workers):
+        """Every failing round trip is reduced to a minimal failing subterm: the subterms of the failing terms are
+        submitted to the same writer under the same table, and a failure is reported for (the first, in pre-order)
+        subterm that fails while none of its own subterms does. This makes the signature name the defect, not the
+        term it happened to occur in."""
+        byplan = {}
+        for rec in self.records:
+            byplan.setdefault(rec[0].uid, []).append(rec)
+        subplans = []
+        for uid, recs in sorted(byplan.items()):
+            plan = recs[0][0]
+            sub = {}
+            for (_, leg, i, _, _) in recs:
+                it = plan.items[i]
+                for st, snv in subterms(it.t, it.nv):
+                    k = json.dumps(st, sort_keys=True)
+                    if k != it.key and k not in sub:
+                        sub[k] = Item({"t": st, "nv": [snv] if snv is not None else [], "nvdef": True, "safe": True})
+            if sub:
+                subplans.append(Plan("k" + uid, plan.table, list(sub.values()), sorted(set(r[1] for r in recs)), self.wopts, self.workdir))
+        self.shrinking = True
+        self.failing = {}
+        if subplans:
+            self.run(subplans, workers)
+        self.shrinking = False
+        for (p, leg, i, txt, outcome) in self.records:
+            it = p.items[i]
+            fails = self.failing.get(("k" + p.uid, leg), {})
+            mt, mnv, mtxt, mout = it.t, it.nv, txt, outcome
+            for st, snv in subterms(it.t, it.nv):
+                k = json.dumps(st, sort_keys=True)
+                if k == it.key or k not in fails:
+                    continue
+                if not any(json.dumps(x, sort_keys=True) in fails for x, _ in list(subterms(st, None))[1:]):
+                    mt, mnv, (mtxt, mout) = st, snv, fails[k]
+                    break
+            show = terms.show(terms.from_tla(mt))
+            g = (show, mtxt, mout)
+            if g in self.groups:
+                self.groups[g][1].append((leg, p.table.name))
+                continue
+            self.groups[g] = [{"hist": p.table.hist, "leg": leg, "term": mt, "nv": mnv,
+                               "text": mtxt, "outcome": mout, "found_in": {"term": it.show, "text": txt, "outcome": outcome},
+                               "class": [it.pos, it.oc, list(it.o), list(it.inn)]}, [(leg, p.table.name)]]
 
     def report(self):
         for (show, txt, outcome), (detail, where) in sorted(self.groups.items(), key=lambda kv: (kv[0][0], str(kv[0][1]))):
@@ -557,6 +604,17 @@ class Runner:
             sig = "term=%s text=%s => %s [legs=%s tables=%d first=%s]" % (
                 show, json.dumps(txt, ensure_ascii=False), outcome, ",".join(legs), len(tabs), tabs[0])
             self.rep.violation(sig, detail)
+
+
+def subterms(t, nv):
+    """(subterm, corresponding subterm of the numbervars image) of a TLA term, in pre-order, the term itself first"""
+    yield t, nv
+    if t["t"] == "c":
+        if nv is not None and (nv["t"] != "c" or nv["n"] != t["n"] or len(nv["a"]) != len(t["a"])):
+            return          # a '$VAR'(N) node that the image replaces by a variable: its argument is no position of the image
+        for k, x in enumerate(t["a"]):
+            for y in subterms(x, nv["a"][k] if nv is not None else None):
+                yield y
 
 
 def dec_image(e):
@@ -676,6 +734,9 @@ def run(tier):
         runner.run(splans, workers=14)
         nbeh += len(splans)
         rep.extra["simulated_histories"] = len(splans)
+    t0 = time.time()
+    runner.shrink(8 if quick else 14)
+    phases["shrink"] = round(time.time() - t0, 1)
     runner.report()
     for it in items[:: max(1, len(items) // 5)]:
         rep.sample({"term": it.show, "needs": sorted(list(x) for x in it.needs), "class": [it.pos, it.oc]})
